@@ -271,6 +271,10 @@ pub struct Style {
     /// method, a no-break space): lenient.
     #[serde(default)]
     pub unicode_blanks: bool,
+    /// ...also between the offset and the trailing comment (a separate image: a loader that
+    /// refuses one of the two forms must not hide what it does with the other).
+    #[serde(default)]
+    pub unicode_before_comment: bool,
 }
 
 fn sep_str(sep: u8, rng: &mut Rng) -> String {
@@ -340,8 +344,12 @@ pub fn render(table: &[Entry], style: &Style, rng: &mut Rng) -> String {
         } else {
             String::new()
         };
-        let sep = if style.unicode_blanks && rng.chance(2, 3) {
-            (*rng.pick(&["\u{3000}", "\u{a0}", "\u{2003}", "\u{3000}\t", " \u{a0}\u{a0}"])).to_string()
+        let sep = if style.unicode_blanks && (style.unicode_before_comment || rng.chance(2, 3)) {
+            if style.unicode_before_comment {
+                (*rng.pick(&["\u{3000}", "\u{a0}", "\u{2003}"])).to_string()
+            } else {
+                (*rng.pick(&["\u{3000}", "\u{a0}", "\u{2003}", "\u{3000}\t", " \u{a0}\u{a0}"])).to_string()
+            }
         } else {
             sep_str(style.sep, rng)
         };
@@ -349,7 +357,13 @@ pub fn render(table: &[Entry], style: &Style, rng: &mut Rng) -> String {
         if style.trailing_comment {
             // date of the entry, as in the real file
             let (y, m) = civil_of_ntp(ts);
-            l.push_str(&sep_str(style.sep, rng));
+            if style.unicode_blanks && style.unicode_before_comment {
+                // a Unicode blank before the comment as well: no ASCII blank anywhere between
+                // the timestamp and the '#'
+                l.push_str(*rng.pick(&["\u{a0}", "\u{3000}", "\u{2003}\u{a0}"]));
+            } else {
+                l.push_str(&sep_str(style.sep, rng));
+            }
             l.push_str(&format!("# 1 {} {}", MONTH_ABBR[(m - 1) as usize], y));
         }
         if style.long_trailing_comment > 0 && i == long_trail_at {
@@ -464,6 +478,7 @@ pub fn random_style(rng: &mut Rng) -> Style {
         stale_expiry: false,
         hash_line_first: false,
         unicode_blanks: false,
+        unicode_before_comment: false,
     }
 }
 
@@ -686,7 +701,14 @@ pub fn build_pool(shipped_text: String, shipped_table: Vec<Entry>, n_rendered: u
             style.blank_only_lines = k % 4 == 2;
             style.indent_comments = k % 8 == 5;
             style.mixed_endings = k % 3 == 1;
-            style.unicode_blanks = k % 8 == 4;
+            style.unicode_blanks = k % 8 == 4 || (k % 8 == 0 && k > 0);
+            if k % 8 == 0 && k > 0 {
+                // Unicode blanks only, also before the comment, on every data line, no indentation
+                style.unicode_before_comment = true;
+                style.indent_data = false;
+                style.trailing_blanks = false;
+                style.mixed_endings = false;
+            }
             if style.unicode_blanks {
                 // the comment follows the offset after a single tab: a loader that measures the
                 // line in characters but cuts it in bytes then cuts into the offset
